@@ -135,6 +135,9 @@ class LikelihoodEnergyOperator(EnergyOperator):
         return _LikelihoodChain(self, other)
 
     def __rmatmul__(self, other):
+        if not isinstance(other, (ScalingOperator, LikelihoodEnergyOperator)):
+            # a generic operator applied to a likelihood energy is a plain chain, not a likelihood
+            return _OpChain.make((other, self))
         return _LikelihoodChain(other, self)
 
     def __add__(self, other):
